@@ -364,7 +364,7 @@ PROPS = {
         # cfg=pinned: the correspondence rows are compared with the model of the candidate reader as it is in /repo
         # now; switch to cfg=fixed once the proposed repair of fetch.rs (skip statements with other content, accept
         # <then> once) is in /repo. The theorems are about FCfg.fixed; FCfg.pinned has _partial / _cex.
-        ops=[("cands", ["cfg=fixed"])],
+        ops=[("cands", ["cfg=fixed"]), ("e2e", ["c16"])],
         level_text="Theorems over ALL configurations of the configuration grammar (any number/mix of policy-statements; per "
                    "statement any attribute list -- any order, duplicates incl. the duplicate xmlns:jcmd, unrelated attributes, any "
                    "number of jcmd:active / jcmd:comment attributes with any values -- and any body: names, then elements with "
@@ -407,7 +407,7 @@ PROPS = {
     ),
     "C14": dict(
         thm=["Bgpfu.Thm.C14", "Bgpfu.Thm.C05"],
-        ops=[("fuzz", []), ("frame", ["only-huge"])],
+        ops=[("fuzz", []), ("frame", ["only-huge"]), ("deep", [])],
         level_text="Theorems over EVERY event list (well-formed or not, tokenizer errors and EOF anywhere): every reader "
                    "loop consumes at least one event per iteration and never needs more than evs.length+1 iterations "
                    "(readMessage_total, establish_total, reader_loops_bounded), and a message without an rpc-reply root "
